@@ -24,7 +24,8 @@ Definition B (l : list N) : list byte := map nb l.
 Inductive iop :=
 | IFrame (m : msg)        (* peer frame written to the carrier, reader idle again *)
 | IOpen                   (* OpenStream started; its open frame is on the wire *)
-| IAccept                 (* AcceptStream returned a stream *)
+| IAccept (n : N)         (* AcceptStream returned stream n (0: it returned none); pending
+                             streams the peer had already closed are skipped as stale *)
 | IRead (i k : N)         (* Read with a k-byte buffer and a short deadline *)
 | IClose (i : N).         (* Stream.Close returned *)
 
@@ -44,14 +45,23 @@ Definition acts_after_frame (st : state) (m : msg) : list action :=
   | _ => []
   end.
 
+(* AcceptStream: pending identifiers are taken in order; one whose stream the
+   peer already closed may be skipped as stale (the code's select picks either
+   way, the harness reports which stream came back) *)
+Fixpoint accept_actions (n : N) (bl : list N) : list action :=
+  match bl with
+  | [] => []
+  | h :: t =>
+    if N.eqb h n then [AAcceptPop R; AAcceptSend R h]
+    else [AAcceptPop R; AAcceptAbort R h; ACTakeW R h; ACTakeR R h; ACPost R h; ACDereg R h]
+         ++ accept_actions n t
+  end.
+
 Definition iop_actions (fx : fixes) (st : state) (o : iop) : list action :=
   match o with
   | IFrame m => ADeliver R :: acts_after_frame st m
   | IOpen => [AOpenAlloc R; AOpenSend R (nextOut (ep st R))]
-  | IAccept => match backlog (ep st R) with
-               | i :: _ => [AAcceptPop R; AAcceptSend R i]
-               | [] => []
-               end
+  | IAccept n => accept_actions n (backlog (ep st R))
   | IRead i k => [ARead R i k; ARConsume R i; ARPost R i; AREof R i; AREnd R i]
   | IClose i => [AClose R i; ACTakeW R i; ACTakeR R i; ACPost R i; ACDereg R i]
   end.
